@@ -13,7 +13,8 @@ import numpy as np
 from sim import boot
 from sim.boot import CLOCK
 from sim.util import SimAbort, cjson, dig, tt_copy, tt_full, wellformed_tt
-from sim.world import Monitor, Objective, captured_stdout, gen, make_table, make_tt, unfolding_ranks
+from sim.world import Monitor, Objective, ObjectiveFailure, captured_stdout, gen, make_table, make_tt, unfolding_ranks
+import collections
 
 teneva = boot.boot()
 
@@ -52,7 +53,7 @@ EXPECTED_PROBES = {
             'stop_m', 'stop_func', 'stop_cb', 'stop_e', 'stop_e_vld', 'stop_nswp', 'pre_iteration_stop',
             'valueerror_rejected'],
     'C05': ['restart_all_from_cache_conv', 'reproduction_checked', 'transparency_bitwise', 'foreign_cache',
-            'crash_none', 'crash_m', 'crash_cb', 'liveness_checked', 'reproduction_checked_at_interruption'],
+            'crash_none', 'crash_m', 'crash_cb', 'crash_raise', 'liveness_checked', 'reproduction_checked_at_interruption'],
 }
 BUDGET = {
     'C06': {'quick': {'n': 128, 'max_s': 150, 'chunk': 1}, 'thorough': {'n': 1600, 'max_s': 3000, 'chunk': 1}},
@@ -93,7 +94,11 @@ def gen_config(rng, small=False):
     if all(k == 1 for k in n):
         n[rng.randrange(d)] = 3
     kind = rng.choice(['tt', 'tt', 'tt', 'rand', 'sum'])
+    if not small and rng.random() < 0.1:
+        kind = 'sparse'           # a table with few (or no) non-zero entries: requested blocks may vanish identically
     target = {'kind': kind, 'tseed': rng.randrange(1 << 30)}
+    if kind == 'sparse':
+        target['density'] = rng.choice([0.0, 0.05, 0.2, 0.5])
     if kind == 'tt':
         target['rho'] = rng.randint(1, 3)
     if rng.random() < 0.12:
@@ -119,9 +124,12 @@ def gen_config(rng, small=False):
         'jumps': {str(rng.randint(1, 4)): rng.choice([-1e6, 1e3, 86400.0])} if rng.random() < 0.3 else {},
         'ret_list': rng.random() < 0.15,
         'ret': rng.choice(['f64', 'f64', 'f64', 'f64', 'list', 'f32']),     # what the objective hands back
+        'memo': rng.random() < 0.2,                   # the objective memoises: the same array object comes back when a batch recurs
+        'cb_cont': rng.choice([None, None, False, 0]),  # how the callback says "go on"
+        'cache_type': rng.choice(['dict', 'dict', 'defaultdict', 'ordered']),
     }
     if rng.random() < 0.4:
-        cfg['vld'] = {'m': rng.randint(1, 12), 'seed': rng.randrange(1 << 30)}
+        cfg['vld'] = {'m': rng.randint(1, 12), 'seed': rng.randrange(1 << 30), 'neg': rng.random() < 0.15}
         cfg['e_vld'] = rng.choice([None, 1e-10, 1e-2, 10.0])
     return cfg
 
@@ -179,7 +187,7 @@ def generate(rng, prop, tier):
         ncrash = min(ncrash, 1)
     crashes = []
     for _ in range(ncrash):
-        kind = rng.choice(['none_at', 'm', 'cb_at'])
+        kind = rng.choice(['none_at', 'm', 'cb_at', 'raise_at'])
         crashes.append({'kind': kind, 'q': round(rng.random(), 4), 'early': rng.random() < 0.6,
                         'fresh_y0': rng.random() < 0.35, 'y0seed': rng.randrange(1 << 30)})
     return {'engine': NAME, 'mode': 'incarnations', 'cfg': cfg, 'expect': mode, 'share_info': rng.random() < 0.4,
@@ -207,6 +215,10 @@ def materialise(cfg):
     if cfg.get('vld'):
         g = gen(cfg['vld']['seed'])
         I_vld = np.stack([g.integers(0, k, cfg['vld']['m']) for k in n], axis=1)
+        if cfg['vld'].get('neg'):
+            # numpy-style subscripts counted from the end are subscripts too (the dense reference reads them the same way)
+            flip = g.random(I_vld.shape) < 0.3
+            I_vld = np.where(flip, I_vld - np.array(n)[None, :], I_vld)
         y_vld = T[tuple(I_vld.T)]
     return T, Y0, I_vld, y_vld
 
@@ -220,9 +232,10 @@ def run_once(cfg, world, plan, cache=None, Y0=None, stop_args=None, keep_tensors
     CLOCK.reset()
     m = plan.get('m')
     o.f = Objective(T, o.events, none_at=plan.get('none_at'), m_max=m, latency=cfg.get('latency'),
-                    ret_list=cfg.get('ret_list', False) or cfg.get('ret') == 'list', ret_f32=cfg.get('ret') == 'f32')
+                    ret_list=cfg.get('ret_list', False) or cfg.get('ret') == 'list', ret_f32=cfg.get('ret') == 'f32',
+                    memo=bool(cfg.get('memo')) and cfg.get('ret', 'f64') == 'f64' and not cfg.get('ret_list'), raise_at=plan.get('raise_at'))
     o.mon = Monitor(o.events, cb_at=plan.get('cb_at'), jumps=cfg.get('jumps'), keep_tensors=keep_tensors,
-                    sweep_cap=sweep_cap or 40)
+                    sweep_cap=sweep_cap or 40, cont=cfg.get('cb_cont'))
     o.info = {} if info is None else info       # a caller may keep ONE progress record across calls
     o.cache = cache
     o.cache_in = None if cache is None else dict(cache)
@@ -237,16 +250,33 @@ def run_once(cfg, world, plan, cache=None, Y0=None, stop_args=None, keep_tensors
     o.Y = None
     o.exc = None
     o.abort = None
+    o.failed = None
     try:
         with captured_stdout():
             o.Y = teneva.cross(o.f, Y0, **kw)
     except SimAbort as e:
         o.abort = str(e)
+    except ObjectiveFailure as e:   # the simulated crash of the objective: the exception propagates to the caller
+        o.failed = e
     except Exception as e:          # whatever escapes from cross is judged by the oracles
         o.exc = e
     o.sim_time = CLOCK.advanced
     o.y0_changed = [G.tobytes() for G in Y0] != Y0_bytes
     return o
+
+
+def make_cache(cfg, content=None):
+    """The caller's cache object: a dict, or a dict subclass a user may well pass (documented type: dict)."""
+    kind = cfg.get('cache_type', 'dict')
+    if kind == 'defaultdict':
+        c = collections.defaultdict(float)
+    elif kind == 'ordered':
+        c = collections.OrderedDict()
+    else:
+        c = {}
+    if content:
+        c.update(content)
+    return c
 
 
 def batch_key(B):
@@ -626,7 +656,7 @@ def execute_enumerate(scen):
         if 'args' in plan:           # a replayed stop-argument case
             continue
         ck = plan.get('cache', 'none')
-        cache = None if ck == 'none' else ({} if ck == 'empty' else dict(pre_cache))
+        cache = None if ck == 'none' else (make_cache(cfg) if ck == 'empty' else make_cache(cfg, pre_cache))
         o = run_once(cfg, world, plan, cache=cache, keep_tensors=False, info=shared)
         if shared is not None:
             o.info = dict(o.info)
@@ -759,13 +789,13 @@ def execute_incarnations(scen):
     trace = twin_trace(tw)
     # initial durable state
     if scen['cache0'] == 'empty':
-        cache = {}
+        cache = make_cache(cfg)
     elif scen['cache0'] == 'pre':
-        cache = build_pre_cache(scen['pre'], trace, T, n)
+        cache = make_cache(cfg, build_pre_cache(scen['pre'], trace, T, n))
         Fk('prepopulated_cache')
     else:
         # foreign: left behind by a complete run from another start tensor
-        cache = {}
+        cache = make_cache(cfg)
         Yf = make_tt(n, cfg['y0']['r'], scen['pre']['seed'], dist='uniform')
         run_once(cfg, world, {}, cache=cache, Y0=Yf, keep_tensors=False)
         runs += 1
@@ -810,6 +840,8 @@ def execute_incarnations(scen):
                 ncall = first_sweep_calls
             if cr['kind'] == 'none_at':
                 plan['none_at'] = 1 + int(q * max(1, ncall))
+            elif cr['kind'] == 'raise_at':
+                plan['raise_at'] = 1 + int(q * max(1, ncall))
             elif cr['kind'] == 'm':
                 plan['m'] = 1 + int(q * max(1, sum(sizes[:ncall])))
             else:
@@ -822,6 +854,28 @@ def execute_incarnations(scen):
         runs += 1
         sim += o.sim_time
         tag = 'incarnation %d plan %s' % (ci + 1, cjson(plan))
+        if o.failed is not None:
+            # the objective crashed with an exception: nothing is returned, only the cache dictionary survives; it must hold
+            # exactly the pairs evaluated so far (no reservation, no partial entry) and the next incarnation must cope with it
+            Fk('crash_objective_exception')
+            P('crash_raise')
+            for b in o.f.served:
+                for key in batch_key(b):
+                    if key in evaluated or key in pre_keys:
+                        V.append(viol(prop, 'exactly-once', '%s: index %s evaluated although it was known' % (tag, key)))
+                        break
+                    evaluated[key] = float(T[key])
+            want = {k: float(T[k]) for k in pre_keys}
+            want.update(evaluated)
+            if dict(cache) != want:
+                extra = [k for k in cache if k not in want][:3]
+                missing = [k for k in want if k not in cache][:3]
+                wrong = [k for k in cache if k in want and cache[k] != want[k]][:3]
+                V.append(viol(prop, 'cache-content', '%s: after the objective raised, the surviving dictionary differs from pre-populated + evaluated pairs: extra %s (values %s) missing %s wrong-value %s'
+                              % (tag, extra, [cache[k] for k in extra], missing, wrong)))
+            if V:
+                break
+            continue
         if o.exc is not None or o.abort is not None or o.Y is None:
             V.append(viol(prop, 'exception', '%s: cached run failed: %r %r' % (tag, o.exc, o.abort)))
             break
@@ -848,7 +902,7 @@ def execute_incarnations(scen):
                     break
         want = {k: float(T[k]) for k in pre_keys}
         want.update(evaluated)
-        if cache != want:
+        if dict(cache) != want:
             extra = [k for k in cache if k not in want][:3]
             missing = [k for k in want if k not in cache][:3]
             wrong = [k for k in cache if k in want and cache[k] != want[k]][:3]
@@ -1053,7 +1107,7 @@ def shrink(scen, v):
         s = cp(); s['share_info'] = False; yield s
     if cfg['target'].get('scale'):
         s = cp(); s['cfg']['target'].pop('scale'); yield s
-    for key, val in (('log', False), ('latency', []), ('jumps', {}), ('ret_list', False), ('ret', 'f64'), ('e', None),
+    for key, val in (('log', False), ('latency', []), ('jumps', {}), ('ret_list', False), ('ret', 'f64'), ('memo', False), ('cb_cont', None), ('cache_type', 'dict'), ('e', None),
                      ('e_vld', None), ('vld', None), ('k0', 100), ('tau', 1.1), ('tau0', 1.05), ('m_cache_scale', 5)):
         if cfg.get(key) != val:
             s = cp(); s['cfg'][key] = val
